@@ -1036,6 +1036,9 @@ func (p *CodeBuilder) refMember(typ types.Type, name string, argVal target.Expr,
 				return MemberField
 			}
 		}
+		if m, ok := p.getUnderlying(o).(*types.Map); ok {
+			return p.refMember(m, name, argVal, src, visited)
+		}
 	case *types.Struct:
 		if p.fieldRef(argVal, o, name, src, visited) {
 			return MemberField
